@@ -115,7 +115,11 @@ Error query_rw_info(const BaseInst& inst, const Operand_* operands, size_t op_co
   const InstDB::InstInfo& inst_info = InstDB::_inst_info_table[real_id];
   const InstRWInfoData& rw_info = inst_rw_info_table[inst_info.rw_info_index()];
 
-  if (inst_info.has_flag(InstDB::kInstFlagConsecutive) && op_count > 2) {
+  // The register list of LDn/STn/CASP starts at the first operand, the register list of TBL/TBX follows the destination.
+  // Only the last operand (memory operand or index vector) follows the register list.
+  uint32_t list_first = inst_info._encoding == InstDB::kEncodingSimdTblTbx ? 1u : 0u;
+
+  if (inst_info.has_flag(InstDB::kInstFlagConsecutive) && op_count > 2u + list_first) {
     for (uint32_t i = 0; i < op_count; i++) {
       OpRWInfo& op = out->_operands[i];
       const Operand_& src_op = operands[i];
@@ -125,7 +129,7 @@ Error query_rw_info(const BaseInst& inst, const Operand_* operands, size_t op_co
         continue;
       }
 
-      OpRWFlags rw_flags = i < op_count - 1 ? (OpRWFlags)rw_info.rwx[0] : (OpRWFlags)rw_info.rwx[1];
+      OpRWFlags rw_flags = (OpRWFlags)rw_info.rwx[i < op_count - 1 ? Support::min(i, list_first) : list_first + 1u];
 
       op._op_flags = rw_flags & ~(OpRWFlags::kZExt);
       op._phys_id = Reg::kIdBad;
@@ -141,10 +145,10 @@ Error query_rw_info(const BaseInst& inst, const Operand_* operands, size_t op_co
       op._consecutive_lead_count = 0;
 
       if (src_op.is_reg()) {
-        if (i == 0) {
-          op._consecutive_lead_count = uint8_t(op_count - 1);
+        if (i == list_first) {
+          op._consecutive_lead_count = uint8_t(op_count - 1u - list_first);
         }
-        else {
+        else if (i > list_first && i < op_count - 1u) {
           op.add_op_flags(OpRWFlags::kConsecutive);
         }
       }
